@@ -3,6 +3,7 @@
 // boundary patterns for wider and address fields) x prior object states.
 #include "entry.hpp"
 #include "sermon.hpp"
+#include "derived.hpp"
 #include "explore.hpp"
 
 using namespace mc;
@@ -69,13 +70,18 @@ template <size_t n> struct Fam<HWAddress<n>, void> { static const bool scalar = 
 // ---------------------------------------------------------------- alias groups: getters that are documented views of the same wire bits
 // (deprecated composite accessors and the type-dependent rest-of-header unions); pairs are symmetric
 static bool aliased(const std::string& a, const std::string& b) {
-    static const char* groups[][12] = {
+    static const char* groups[][20] = {
         {"IP.frag_off", "IP.fragment_offset", "IP.flags", "IP.is_fragmented", 0},
         {"ICMP.id", "ICMP.sequence", "ICMP.gateway", "ICMP.mtu", "ICMP.pointer", "ICMP.length", 0},
-        {"ICMPv6.identifier", "ICMPv6.sequence", "ICMPv6.hop_limit", "ICMPv6.router", "ICMPv6.solicited", "ICMPv6.override", "ICMPv6.maximum_response_code", "ICMPv6.length", "ICMPv6.router_lifetime", "ICMPv6.managed", "ICMPv6.other", 0},
-        {"ICMPv6.home_agent", "ICMPv6.router_pref", "ICMPv6.managed", "ICMPv6.other", "ICMPv6.identifier", "ICMPv6.router_lifetime", "ICMPv6.sequence", 0},
+        {"ICMP.original_timestamp", "ICMP.address_mask", 0},
+        {"ICMPv6.identifier", "ICMPv6.sequence", "ICMPv6.hop_limit", "ICMPv6.router", "ICMPv6.solicited", "ICMPv6.override", "ICMPv6.maximum_response_code", "ICMPv6.length",
+         "ICMPv6.router_lifetime", "ICMPv6.managed", "ICMPv6.other", "ICMPv6.home_agent", "ICMPv6.router_pref", 0},
         {"ICMPv6.reachable_time", "ICMPv6.qqic", "ICMPv6.qrv", "ICMPv6.supress", 0},
         {"TCP.flags", "TCP.has_flags", 0},
+        {"DHCPv6.msg_type", "DHCPv6.is_relay_message", "DHCPv6.hop_count", "DHCPv6.transaction_id", 0},
+        {"Dot11.addr1", "Dot11Data.addr2", "Dot11Data.addr3", "Dot11Data.addr4", "Dot11Data.dst_addr", "Dot11Data.src_addr", "Dot11Data.bssid_addr", "Dot11.to_ds", "Dot11.from_ds", 0},
+        {"RTP.padding_size", "RTP.padding_bit", 0},
+        {"RTP.extension_bit", "RTP.extension_profile", "RTP.extension_length", 0},
         {0}};
     for (int g = 0; groups[g][0]; ++g) {
         bool ha = false, hb = false;
@@ -84,25 +90,26 @@ static bool aliased(const std::string& a, const std::string& b) {
     }
     return false;
 }
+// raw views of option lists / payload blobs: they legitimately move when a typed field inside them is set
+static bool list_key(const std::string& key) { size_t d = key.find('.'); std::string g = key.substr(d + 1); return g == "options" || g == "tags" || g == "headers" || g == "options_payload" || g == "present" || g == "vend"; }
 // bytes of the standalone serialization that are derived (checksums / lengths), per class
-static bool derived_byte(const std::string& cls, size_t off) {
-    if (cls == "IP") return off == 0 || (off >= 2 && off < 4) || (off >= 10 && off < 12) || off == 9;   // ihl, tot_len, checksum, protocol (0 without payload)
-    if (cls == "ICMP") return off >= 2 && off < 4;
-    if (cls == "ICMPv6") return off >= 2 && off < 4;
-    if (cls == "TCP") return off == 12 || (off >= 16 && off < 18);
-    if (cls == "UDP") return (off >= 4 && off < 8);
-    if (cls == "IPv6") return (off >= 4 && off < 7);
-    if (cls == "Dot3") return off >= 12 && off < 14;
-    if (cls == "EthernetII") return off >= 12 && off < 14;
-    if (cls == "Dot1Q") return off >= 2 && off < 4;
-    if (cls == "RadioTap") return off >= 2 && off < 4;
-    if (cls == "PPPoE") return off >= 4 && off < 6;
-    if (cls == "IPSecAH") return off < 2;
-    if (cls == "SNAP") return off >= 6 && off < 8;
-    if (cls == "SLL") return off >= 14 && off < 16;
-    if (cls.compare(0, 5, "EAPOL") == 0 || cls == "RSNEAPOL" || cls == "RC4EAPOL") return off >= 2 && off < 4;
-    return false;
+static uint8_t derived_mask(const std::string& cls, size_t off) {
+    auto in = [off](size_t a, size_t b) { return off >= a && off < b; };
+    if (cls == "IP") return off == 0 ? 0x0f : (in(2, 4) || in(10, 12) || off == 9) ? 0xff : 0;   // ihl, tot_len, checksum, protocol (0 without payload)
+    if (cls == "ICMP" || cls == "ICMPv6") return in(2, 4) ? 0xff : 0;
+    if (cls == "TCP") return off == 12 ? 0xf0 : in(16, 18) ? 0xff : 0;                          // data offset, checksum
+    if (cls == "UDP") return in(4, 8) ? 0xff : 0;
+    if (cls == "IPv6") return in(4, 7) ? 0xff : 0;
+    if (cls == "Dot3" || cls == "EthernetII") return in(12, 14) ? 0xff : 0;
+    if (cls == "Dot1Q" || cls == "RadioTap") return in(2, 4) ? 0xff : 0;
+    if (cls == "PPPoE") return in(4, 6) ? 0xff : 0;
+    if (cls == "IPSecAH") return off < 2 ? 0xff : 0;
+    if (cls == "SNAP") return in(6, 8) ? 0xff : 0;
+    if (cls == "SLL") return in(14, 16) ? 0xff : 0;
+    if (cls == "RSNEAPOL" || cls == "RC4EAPOL") return in(2, 4) ? 0xff : 0;
+    return 0;
 }
+static bool derived_byte(const std::string& cls, size_t off) { return derived_mask(cls, off) == 0xff; }
 static bool little_endian_class(const std::string& cls) { return cls.compare(0, 5, "Dot11") == 0 || cls == "RadioTap" || cls == "PPI" || cls == "PKTAP" || cls == "Loopback"; }
 
 static std::map<std::string, std::string> snapshot(const PDU& p) { std::map<std::string, std::string> m; View v; view_layer(p, v, 0); for (auto& e : v) m[e.key] = e.val; return m; }
@@ -139,6 +146,18 @@ template <class Q, class Arg> struct Runner {
         std::vector<V> vals = Fam<V>::all();
         std::vector<V> probes = Fam<V>::probes();
         if (vals.empty()) { R.count("fields_without_domain"); R.info["nodomain:" + k] = "true"; return; }
+        if (!Fam<V>::scalar) { R.count("fields_aggregate_left_to_C04"); return; }     // the property is about scalar header fields
+        {   // a header field does not change the layer's size nor its raw option / tag lists (those setters are option encoders: C04, C11)
+            std::unique_ptr<PDU> t(prior(0));
+            if (!t) { R.count("fields_uninstantiable"); return; }
+            auto s0 = snapshot(*t);
+            try { (static_cast<Q&>(*t).*set)(probes[0]); } catch (exception_base&) {}
+            auto s1 = snapshot(*t);
+            bool optionlike = false;
+            for (auto& kv : s0) if ((list_key(kv.first) || kv.first == "PDU.header_size") && s1[kv.first] != kv.second) optionlike = true;
+            if (optionlike) { R.count("fields_option_encoders_left_to_C04"); return; }
+        }
+        bool derived_field = always_derived(k) || protocol_tag(k);
         R.count("fields");
         R.dist("distinct_nontrivial", fnv(k));
         for (int pr = 0; pr < 3; ++pr) {
@@ -187,39 +206,46 @@ template <class Q, class Arg> struct Runner {
                     try { (qa.*set)(basev); (qb.*set)(v); } catch (exception_base&) { continue; }
                     auto sa = snapshot(*a), sb = snapshot(*b);
                     for (auto& kv : sa) {
-                        if (kv.first == k || aliased(kv.first, k) || always_derived_key(kv.first)) continue;
+                        if (kv.first == k || aliased(kv.first, k) || always_derived_key(kv.first) || list_key(kv.first)) continue;
                         if (sb[kv.first] != kv.second) {
                             R.violation("field:disturbs-neighbour:" + k + "->" + kv.first, kv.first + " changed from " + kv.second + " to " + sb[kv.first] + " when " + k + " went from " + show(basev) + " to " + show(v), ctx + " value=" + show(v));
                             fi_ok = false;
                         }
                     }
                     if (!fi_ok) break;
+                    if (derived_field) continue;      // overwritten by write_serialization: nothing to locate on the wire
                     Bytes ya, yb;
                     try { ya = ser(*a); yb = ser(*b); } catch (std::exception&) { continue; }
                     if (ya.empty() || ya.size() != yb.size()) continue;
                     R.count("serializations", 2);
                     std::vector<long> diff;
                     for (size_t i = 0; i < ya.size(); ++i) {
-                        if (derived_byte(cls, i)) continue;
-                        uint8_t x = ya[i] ^ yb[i];
+                        uint8_t x = (ya[i] ^ yb[i]) & ~derived_mask(cls, i);
                         for (int bit = 7; bit >= 0; --bit) if (x >> bit & 1) diff.push_back((long)(i * 8 + (7 - bit)));   // global MSB-first bit index
                     }
                     fi.bits.insert(diff.begin(), diff.end());
                     if (bl == 0 && (int)pi < w && !std::is_enum<V>::value) {
-                        if (diff.size() != 1) {
-                            if (!diff.empty() || !all_derived(cls, ya.size()))
-                                R.violation("field:single-bit-not-single:" + k, "value bit " + std::to_string(pi) + " changes " + std::to_string(diff.size()) + " serialized bits", ctx + " value=" + show(v));
-                            fi_ok = false;
-                        } else pos[pi] = diff[0];
+                        if (diff.size() == 1) pos[pi] = diff[0];
+                        else if (diff.empty()) pos[pi] = -1;
+                        else { R.violation("field:single-bit-not-single:" + k, "value bit " + std::to_string(pi) + " changes " + std::to_string(diff.size()) + " serialized bits", ctx + " value=" + show(v)); fi_ok = false; }
+                    }
+                }
+                if (bl == 0 && fi_ok && !derived_field && !std::is_enum<V>::value) {
+                    int onwire = 0;
+                    for (int i = 0; i < w; ++i) if (pos[i] >= 0) ++onwire;
+                    if (onwire == 0) { if (pr == 0) R.count("fields_not_on_wire_for_default_message_type"); fi_ok = false; }
+                    else if (onwire != w) {
+                        int miss = 0; while (pos[miss] >= 0) ++miss;
+                        R.violation("field:value-bit-not-serialized:" + k, "value bit " + std::to_string(miss) + " of " + std::to_string(w) + " never reaches the wire although other bits do", ctx);
+                        fi_ok = false;
                     }
                 }
                 if (bl == 0 && fi_ok && w > 1 && pos[0] >= 0 && !std::is_enum<V>::value) {
                     bool be = true, le = true;
-                    long b0 = pos[0] / 8;      // byte holding value bit 0
+                    auto le_index = [](long g) { return (g / 8) * 8 + (7 - g % 8); };     // little-endian bit numbering of an MSB-first index
                     for (int i = 0; i < w; ++i) {
                         if (pos[i] != pos[0] - i) be = false;
-                        long want_le = (b0 + i / 8) * 8 + 7 - (pos[0] % 8 == 7 ? i % 8 : -1000);
-                        if (pos[0] % 8 != 7 || pos[i] != want_le) le = false;
+                        if (le_index(pos[i]) != le_index(pos[0]) + i) le = false;
                     }
                     if (!(be || (le && little_endian_class(cls))))
                         R.violation(std::string("field:bit-order:") + k, std::string("value bits are not laid out contiguously in ") + (little_endian_class(cls) ? "little- or big-endian" : "network (big-endian)") + " order; bit0 at " + std::to_string(pos[0]) + " bit" + std::to_string(w - 1) + " at " + std::to_string(pos[w - 1]), ctx);
